@@ -281,6 +281,9 @@ func genC01(thorough bool) func(t *rapid.T) Case {
 		}
 		c.Exact = rapid.IntRange(0, 3).Draw(t, "decimal") < 3
 		bo := BookOpts{MaxRecipes: 9, ExactOnly: c.Exact}
+		if !c.Exact && rapid.IntRange(0, 2).Draw(t, "scales") == 2 {
+			bo.Scales = true
+		}
 		if rapid.IntRange(0, 3).Draw(t, "deep") == 3 {
 			bo.DeepChain = rapid.IntRange(3, 9).Draw(t, "deep_chain")
 		}
@@ -824,6 +827,42 @@ func genC11(thorough bool) func(t *rapid.T) Case {
 			bo.MaxRecipes = 14
 		}
 		c.Book = genBook(t, bo)
+		bigShape := rapid.IntRange(0, 3999).Draw(t, "big_shape")
+		if bigShape == 3999 && !thorough {
+			bigShape = 0 // the 1.2-million-line book costs seconds per case: thorough tier only
+		}
+		switch {
+		case bigShape >= 3900 && bigShape < 3990:
+			// a large limit and a chain about as long (the statement is for every N >= 1)
+			c.MaxDepth = rapid.IntRange(250, 330).Draw(t, "big_maxdepth")
+			refs := c.MaxDepth + rapid.IntRange(-2, 2).Draw(t, "big_around")
+			c.Book = nil
+			for i := 0; i < refs; i++ {
+				next := fmt.Sprintf("c%03d", i+1)
+				if i == refs-1 {
+					next = "kcal"
+				}
+				c.Book = append(c.Book, Block{Head: fmt.Sprintf("c%03d", i), Items: []Item{{next, "1"}}})
+			}
+			order := rapid.Permutation(seq(len(c.Book))).Draw(t, "big_declaration_order")
+			out := make([]Block, len(c.Book))
+			for i, j := range order {
+				out[i] = c.Book[j]
+			}
+			c.Book = out
+		case bigShape == 3999:
+			// a very large flat book: many recipes, every chain one reference long
+			nrec := 120000
+			c.Book = make([]Block, 0, nrec)
+			for i := 0; i < nrec; i++ {
+				bl := Block{Head: fmt.Sprintf("f/%06d", i)}
+				for j := 0; j < 9; j++ {
+					bl.Items = append(bl.Items, Item{elementPool[j%len(elementPool)] + fmt.Sprint(j), "1"})
+				}
+				c.Book = append(c.Book, bl)
+			}
+			c.MaxDepth = rapid.IntRange(2, 12).Draw(t, "huge_maxdepth")
+		}
 		c.Seeds = []uint64{rapid.Uint64().Draw(t, "s1"), rapid.Uint64().Draw(t, "s2"), rapid.Uint64().Draw(t, "s3"), rapid.Uint64().Draw(t, "s4")}
 		c.CLI = rapid.IntRange(0, 3).Draw(t, "cli") == 3
 		c.Prelude = rapid.SampledFrom([]string{"", "", "low-limit", "cycle", "shallow-twin", "deep-twin"}).Draw(t, "prelude")
@@ -960,6 +999,14 @@ func (c *CaseC11) Eval(ob *Obs) []Finding {
 	text := render(c.Book, plainLayout)
 	plans, exhaustive := schedulesFor(len(m.order), c.MaxExhaustive, c.Seeds)
 	entries := []string{"func", "struct"}
+	huge := len(m.order) > 5000
+	if huge {
+		plans, entries = []OrderPlan{{Mode: "shuffle", Seed: c.Seeds[0]}}, []string{"func"}
+		ob.probe("book_with_over_5000_recipes")
+	}
+	if c.MaxDepth > 200 {
+		ob.probe("limit_over_200")
+	}
 	if c.Only != nil {
 		plans, exhaustive, entries = []OrderPlan{*c.Only}, false, []string{c.OnlyEntry}
 	}
@@ -1008,10 +1055,10 @@ func (c *CaseC11) Eval(ob *Obs) []Finding {
 			}
 		}
 	}
-	if c.Only == nil && len(out) == 0 && !wantErr && len(m.order) > 0 {
+	if c.Only == nil && len(out) == 0 && !wantErr && len(m.order) > 0 && !huge {
 		out = append(out, c.evalReuse(ob, m, text)...)
 	}
-	if c.CLI && c.Only == nil {
+	if c.CLI && c.Only == nil && !huge {
 		for _, sh := range []string{"csv database-resolved", "reg", "bal", "report totals"} {
 			for _, mode := range []string{"asc", "desc", "shuffle"} {
 				w := stdWorld(text, "2021/01/20:\n  kcal: 1\n")
